@@ -310,6 +310,11 @@ def shapes(tier, seed):
     out.append(Shape("qubitop/pi-multiples/steps2", h_qubit_op,
                      dict(words=[((0, "Y"),), ((0, "Z"), (1, "X"))], nq=2, order=2, steps=2, control=None, time_mode="one", use_trotterize=True,
                           ident=True, pi_multiples=(4, 2)), modules=MODS))
+    # Hamiltonian with an idle qubit below its highest index: the state register is still 0 .. highest index
+    for (c, m_) in ((None, "time"), (3, "repeat")):
+        out.append(Shape(f"unitary/Z0+X2-gap/o1s1/n1/ctl={c}/{m_}", h_unitary,
+                         dict(words=[((0, "Z"),), ((2, "X"),)], nq=3 + (c is not None), order=1, steps=1, n_steps=1, control=c, method=m_, via_default=True),
+                         modules=MODS + ("tangelo.toolboxes.unitary_generator.trotter_suzuki",)))
     out.append(Shape("canary/qubitop/sign", h_qubit_op, dict(words=[((0, "X"), (1, "X")), ((0, "Z"),)], nq=2, order=1, steps=1,
                                                             control=None, time_mode="scalar", use_trotterize=True, ident=False, canary=True),
                      modules=MODS, canary=True))
